@@ -87,9 +87,11 @@ func generate(cfg *hx.Config) []hx.Case {
 				mode = "t" + mode
 			case 4: // inside a CONNECT tunnel, plain HTTP
 				mode = "h" + mode
+			case 2: // a body-snapshotting logger in the modifier chain
+				mode = "l" + mode
 			}
 		}
-		cfg.Count("carrier=" + map[byte]string{'s': "client-connection", 'p': "client-connection", 'm': "client-connection(mitm proxy)", 't': "tls-tunnel", 'h': "plain-tunnel"}[mode[0]])
+		cfg.Count("carrier=" + map[byte]string{'s': "client-connection", 'p': "client-connection", 'm': "client-connection(mitm proxy)", 't': "tls-tunnel", 'h': "plain-tunnel", 'l': "client-connection(har logger)"}[mode[0]])
 		cases = append(cases, caseOf(fmt.Sprintf("%s%d", kind, n), mode, exs))
 		cfg.Count("kind=" + kind)
 		cfg.Count("mode=" + mode)
@@ -233,7 +235,7 @@ func generate(cfg *hx.Config) []hx.Case {
 			mk(base, "cut", hl/2), mk(base, "cut", 0), // close inside / before the head
 			mk(base, "ref", 0), mk(base, "tmo", 0), mk(base, "gar", 1), mk(base, "gar", 12),
 		}
-		for ci, car := range []string{"", "m", "t", "h", "t", "h"} {
+		for ci, car := range []string{"", "m", "t", "h", "t", "h", "l"} {
 			for pos := 0; pos < 3; pos++ {
 				for fi, f := range fails {
 					var exs []*exch
@@ -244,13 +246,13 @@ func generate(cfg *hx.Config) []hx.Case {
 					fe.Meth = "GPG"[(fi+pos)%3]
 					exs = append(exs, &fe, okEx(60, 'G', "c", 5, nil), okEx(61, 'P', "k", 6, []int{4}))
 					mode := car + "seq"
-					if ci >= 4 || (ci < 2 && (fi+pos)%4 == 3) { // both tunnels: once sequential, once pipelined
+					if ci == 4 || ci == 5 || ((ci < 2 || ci == 6) && (fi+pos)%4 == 3) { // both tunnels: once sequential, once pipelined
 						mode = car + "pipe"
 					}
 					n++
 					cases = append(cases, caseOf(fmt.Sprintf("pos%d", n), mode, exs))
 					cfg.Count("kind=position-x-carrier")
-					cfg.Count("carrier=" + map[string]string{"": "client-connection", "m": "client-connection(mitm proxy)", "t": "tls-tunnel", "h": "plain-tunnel"}[car])
+					cfg.Count("carrier=" + map[string]string{"": "client-connection", "m": "client-connection(mitm proxy)", "t": "tls-tunnel", "h": "plain-tunnel", "l": "client-connection(har logger)"}[car])
 				}
 			}
 		}
@@ -482,6 +484,19 @@ func connectStreams(cfg *hx.Config, rng *hx.RNG) []hx.Case {
 			add(m, v)
 		}
 	}
+	// ALPN h2 inside a MITM'd tunnel: h2.Config.Proxy dials the origin itself;
+	// every outcome of that dial, then the process must still serve
+	preface := hexs("PRI * HTTP/2.0\r\n\r\nSM\r\n\r\n\x00\x00\x00\x04\x00\x00\x00\x00\x00")
+	for _, target := range []string{"connect-dead", "connect", "connect-tlsu", "connect-tls"} {
+		for _, rest := range [][]string{{"read"}, {"close"}, {"tlsraw:" + preface, "read"}, {"half", "read"}} {
+			n++
+			cases = append(cases, hx.Case{Name: fmt.Sprintf("cst-g%d", n), In: append([]string{"CST", "g", target, "tlsh2"}, rest...)})
+			cfg.Count("connect-stream=mitm+h2:" + target)
+		}
+		// the same proxy, a client that does not offer h2
+		n++
+		cases = append(cases, hx.Case{Name: fmt.Sprintf("cst-g%d", n), In: []string{"CST", "g", target, "tls", "tlsraw:" + hexs("GET / HTTP/1.1\r\nHost: nohost.invalid\r\n\r\n"), "read"}})
+	}
 	nr := 30
 	if cfg.Thorough() {
 		nr = 400
@@ -565,7 +580,11 @@ func corpus() []hx.Case {
 		hx.Case{Name: "mitm-connect-one-garbage-byte", In: []string{"CST", "m", "connect", "raw:00", "wait100", "close"}},
 		hx.Case{Name: "mitm-connect-tls-record-header-only", In: []string{"CST", "m", "connect", "raw:1603010200", "close"}},
 		hx.Case{Name: "mitm-connect-tls-then-truncated-request", In: []string{"CST", "m", "connect", "tls", "tlsraw:" + hexs("GET / HT"), "close"}},
-		hx.Case{Name: "plain-connect-then-close", In: []string{"CST", "p", "connect", "close"}})
+		hx.Case{Name: "plain-connect-then-close", In: []string{"CST", "p", "connect", "close"}},
+		hx.Case{Name: "h2-tunnel-upstream-dial-refused", In: []string{"CST", "g", "connect-dead", "tlsh2", "read"}},
+		hx.Case{Name: "h2-tunnel-upstream-not-tls", In: []string{"CST", "g", "connect", "tlsh2", "read"}},
+		hx.Case{Name: "h2-tunnel-upstream-untrusted-certificate", In: []string{"CST", "g", "connect-tlsu", "tlsh2", "read"}},
+		hx.Case{Name: "h2-tunnel-upstream-tls-but-not-h2", In: []string{"CST", "g", "connect-tls", "tlsh2", "read"}})
 	add("garbage-then-ok", "seq", &exch{ID: 9, Meth: 'P', Outcome: "gar", K: 1, Status: 200, Framing: "c", BodyLen: 4}, okEx(8, 'G', "k", 5, []int{5}))
 	return cs
 }
